@@ -343,6 +343,56 @@ def replay_err_dtypes_one(ctx, us, vs, exp, ka, kb, lay):
 CALLS_DEVS = {"MemoTableOneShort": "ArgumentOnly", "ConvInPlace": "ArgumentsUnchanged", "ResultBufferReused": "EarlierResultsUnchanged"}
 
 
+def replay_err_classes(ctx, cases, label):
+    """WHOLE-ARRAY operand classes: arrays in which one operand is entirely zero / entirely binary-valued (0 / 1) / a
+    constant / equal to the other operand, against an M-ary other operand, in both argument orders, 1-d and 2-d with an
+    axis, several integer types.  The count is per value pair: what the rest of the array looks like must not matter."""
+    from pyphysim.util import misc
+    pairs = {}
+    for c in cases:
+        if c["op"] == "err":
+            u, v, e = dec(c["u"]), dec(c["v"]), int(c["ret"])
+            pairs[(u, v)] = e
+            pairs[(v, u)] = e
+    items = sorted(pairs.items())
+    classes = {"all zero": [x for x in items if x[0][0] == 0 and x[0][1] > 1],
+               "binary-valued (0/1)": [x for x in items if x[0][0] <= 1 and x[0][1] > 1],
+               "all one": [x for x in items if x[0][0] == 1 and x[0][1] > 1],
+               "equal operands": [x for x in items if x[0][0] == x[0][1]],
+               "both binary-valued": [x for x in items if x[0][0] <= 1 and x[0][1] <= 1]}
+    bad = []
+    for cname, sel in classes.items():
+        if len(sel) < 2:
+            continue
+        sel = sel[: 6 * (len(sel) // 6)] if len(sel) >= 6 else sel
+        for tname in ("int64", "uint8", "int32", "uint64"):
+            top = np.iinfo(getattr(np, tname)).max
+            ss = [x for x in sel if x[0][0] <= top and x[0][1] <= top]
+            if len(ss) < 2:
+                continue
+            U = np.array([x[0][0] for x in ss], dtype=getattr(np, tname))
+            V = np.array([x[0][1] for x in ss], dtype=getattr(np, tname))
+            E = np.array([x[1] for x in ss], dtype=np.int64)
+            trials = [("1-d", U, V, None, int(E.sum())), ("1-d swapped", V, U, None, int(E.sum()))]
+            if len(ss) % 2 == 0:
+                trials += [("2-d axis 0", U.reshape(2, -1), V.reshape(2, -1), 0, E.reshape(2, -1).sum(axis=0)),
+                           ("2-d axis 1 swapped", V.reshape(2, -1), U.reshape(2, -1), 1, E.reshape(2, -1).sum(axis=1))]
+            for tn, a_, b_, axis, want in trials:
+                try:
+                    got = misc.count_bit_errors(a_, b_) if axis is None else misc.count_bit_errors(a_, b_, axis)
+                    same = np.array_equal(np.asarray(got), np.asarray(want))
+                except Exception as ex:
+                    got, same = f"raised {type(ex).__name__}: {ex}"[:160], False
+                if same:
+                    ctx.ok((label, "err-class", cname, tname, tn), n=len(ss))
+                else:
+                    bad.append({"stage": "R", "op": "errcls", "w": 62, "u": [int(x) for x in a_.reshape(-1)], "v": [int(x) for x in b_.reshape(-1)],
+                                "form": f"{tname} {tn} arrays, one operand {cname}", "exp": np.asarray(want).tolist(),
+                                "got": got if isinstance(got, str) else np.asarray(got).tolist(), "axis": axis, "shape": list(a_.shape), "dtype": tname})
+                    break
+    return bad
+
+
 def calls_cfg(ks, dev=None, emit=True):
     dev = "MemoTableOneShort" if dev is True else dev
     defs = {"Dev": tlc.tla({k: (k == dev) for k in CALLS_DEVS})}
@@ -416,7 +466,7 @@ def judge_gray(ctx, bad):
                     asis[(W, dec(c["v"]))] = dec(c["ret"])
     seen = set()
     for b in bad:
-        what = (f"count_bit_errors({b['u']}, {b['v']}) as {b['form']}: expected {b['exp']}, got {b['got']}" if b["op"] in ("err", "errdt", "errmat", "errlong")
+        what = (f"count_bit_errors({b['u']}, {b['v']}) as {b['form']}: expected {b['exp']}, got {b['got']}" if b["op"] in ("err", "errdt", "errmat", "errlong", "errcls")
                 else f"{ {'b2g': 'binary2gray', 'g2b': 'gray2binary', 'pop': 'count_bits'}[b['op']] }({b['v'] if b['op'] != 'pop' else b['u']}) "
                      f"as {b['form']}: expected {b['exp']}, got {b['got']}")
         if b["op"] == "g2b" and asis.get((b["w"], b["v"])) == b["got"]:
@@ -530,6 +580,8 @@ def run(ctx):
             bad += replay_gray(ctx, r.emitted, n)
             ctx.trace_done()
     bad += replay_err_dtypes(ctx, runs["gray-basis62"].emitted + runs["gray-pairs3"].emitted, "dtypes")
+    for n_ in ("gray-basis62", "gray-exh12", "gray-pairs3"):
+        bad += replay_err_classes(ctx, runs[n_].emitted, "classes/" + n_)
     ctx.sample({"stage": "R", "example": runs["gray-basis62"].emitted[3]})
     judge_gray(ctx, bad)
     history_stage(ctx, runs, fut_model)
@@ -556,6 +608,20 @@ def replay(ctx, data):
         ka, kb, lay = c["form"].split()[0], c["form"].split()[2], c["form"].split()[3]
         bad = replay_err_dtypes_one(ctx, c["u"], c["v"], c["exp"], ka, kb, lay)
         judge_gray(ctx, bad)
+        return
+    if c["op"] == "errcls":
+        from pyphysim.util import misc
+        a_ = np.array(c["u"], dtype=getattr(np, c["dtype"])).reshape(c["shape"])
+        b_ = np.array(c["v"], dtype=getattr(np, c["dtype"])).reshape(c["shape"])
+        try:
+            got = misc.count_bit_errors(a_, b_) if c["axis"] is None else misc.count_bit_errors(a_, b_, c["axis"])
+            same = np.array_equal(np.asarray(got), np.asarray(c["exp"]))
+        except Exception as ex:
+            got, same = f"raised {type(ex).__name__}", False
+        if same:
+            ctx.ok()
+        else:
+            ctx.violation(f"count_bit_errors of {c['form']}: expected {c['exp']}, got {got if isinstance(got, str) else np.asarray(got).tolist()}", c)
         return
     if c["op"] == "errlong":
         from pyphysim.util import misc
